@@ -319,6 +319,16 @@ fn varint(mut v: usize) -> Vec<u8> {
 pub fn gen_aig(rng: &mut Rng, cfg: &PCfg, size: usize) -> Doc {
     let mut d = Doc::default();
     let mut k = counts(rng, cfg, size);
+    if rng.chance(1, 2) {
+        // inputs are not listed in the binary format, so many of them cost nothing; they make the
+        // codes large and the delta codes multi-byte
+        let max_m = ((cfg.max_code() - 1) / 2).min(1 << 40) as usize;
+        let room = max_m.saturating_sub(k.m);
+        let bits = 4 + rng.below(20);
+        let extra = rng.small(room.min(1usize << bits));
+        k.i += extra;
+        k.m += extra;
+    }
     if rng.chance(2, 3) {
         // canonical binary files have M = I + L + A; keep the slack only if B/C/J/F need it
         let need = k.b.max(k.c).max(k.j).max(k.f).saturating_sub(k.a);
@@ -359,10 +369,11 @@ pub fn gen_aig(rng: &mut Rng, cfg: &PCfg, size: usize) -> Doc {
     tail_sections(rng, &mut d, &k, max_lit);
     let bin_start = d.bytes.len();
     for _ in 0..k.a {
-        let d0 = match rng.below(4) {
+        let d0 = match rng.below(5) {
             0 => 0,
             1 => code,
             2 => 10.min(code), // 0x0a: a data byte that looks like a newline
+            3 => rng.below(code.min(300) + 1),
             _ => rng.below(code + 1),
         };
         let in0 = code - d0;
